@@ -230,6 +230,8 @@ pub trait IcKind<I>: IndexContainer<I> + 'static {
     const NAME: &'static str;
     /// Heap-vector backed with one entry per element (participates in C17's zero-alloc claim).
     const PLAIN_VEC: bool;
+    /// Number of (used, capacity) pairs the container reports through heap_size.
+    const PAIRS: usize;
     /// (lower, upper) bound on the used bytes after pushing `seq` into a default container.
     fn used_bounds(seq: &[I]) -> (usize, usize);
 }
@@ -237,6 +239,7 @@ pub trait IcKind<I>: IndexContainer<I> + 'static {
 impl<I: flatcontainer::Index + 'static> IcKind<I> for Vec<I> {
     const NAME: &'static str = "Vec";
     const PLAIN_VEC: bool = true;
+    const PAIRS: usize = 1;
     fn used_bounds(seq: &[I]) -> (usize, usize) {
         let b = seq.len() * std::mem::size_of::<I>();
         (b, b)
@@ -279,6 +282,7 @@ pub fn stride_prefix_len(seq: &[usize]) -> usize {
 impl IcKind<usize> for IndexOptimized {
     const NAME: &'static str = "IndexOptimized";
     const PLAIN_VEC: bool = false;
+    const PAIRS: usize = 2;
     fn used_bounds(seq: &[usize]) -> (usize, usize) {
         (0, documented_index_cost(seq, true))
     }
@@ -287,6 +291,7 @@ impl IcKind<usize> for IndexOptimized {
 impl IcKind<usize> for IndexList<Vec<u32>, Vec<u64>> {
     const NAME: &'static str = "IndexList";
     const PLAIN_VEC: bool = false;
+    const PAIRS: usize = 2;
     fn used_bounds(seq: &[usize]) -> (usize, usize) {
         (0, documented_index_cost(seq, false))
     }
